@@ -345,9 +345,46 @@ func opsReachable(blk *ssa.BasicBlock) map[string]bool {
 // (== and !=, whichever side the constant is on, switch or if-chain alike); every other
 // branch is explored both ways. Static calls into the state package are followed, with
 // the discriminant known only inside fn itself.
-func opsForConstant(fn *ssa.Function, typ, val string) (map[string]bool, int) {
+func opsForConstant(p *Prog, fn *ssa.Function, typ, val string) (map[string]bool, int) {
 	out := map[string]bool{}
 	decided := 0
+	// a constant table map[typ]func(…) looked up with the discriminant: the row of val
+	// decides `known` and is what a call of the looked-up value runs
+	rowFn := map[*ssa.Lookup]*ssa.Function{}
+	isTable := map[*ssa.Lookup]bool{}
+	for _, b := range fn.Blocks {
+		for _, in := range b.Instrs {
+			lk, ok := in.(*ssa.Lookup)
+			if !ok || typeName(lk.Index.Type()) != typ {
+				continue
+			}
+			g := globalOfLoad(lk.X)
+			if g == nil {
+				continue
+			}
+			rows, ok := globalTableRows(p, g)
+			if !ok {
+				continue
+			}
+			isTable[lk] = true
+			decided++
+			for _, r := range rows {
+				if r.key.Value != nil && r.key.Value.Kind() == constant.String && constant.StringVal(r.key.Value) == val {
+					rowFn[lk] = funcOfValue(r.val)
+				}
+			}
+		}
+	}
+	tableOf := func(v ssa.Value) (*ssa.Lookup, int, bool) {
+		v = stripConv(v)
+		idx := -1
+		if ex, ok := v.(*ssa.Extract); ok {
+			idx = ex.Index
+			v = ex.Tuple
+		}
+		lk, ok := v.(*ssa.Lookup)
+		return lk, idx, ok && isTable[lk]
+	}
 	seen := map[*ssa.BasicBlock]bool{}
 	var walk func(b *ssa.BasicBlock)
 	walk = func(b *ssa.BasicBlock) {
@@ -360,6 +397,15 @@ func opsForConstant(fn *ssa.Function, typ, val string) (map[string]bool, int) {
 				out[op] = true
 			}
 			if ci, ok := in.(ssa.CallInstruction); ok {
+				if lk, idx, ok := tableOf(ci.Common().Value); ok && idx <= 0 && isDynamicCall(ci.Common()) {
+					// the action of the table row for val
+					if rf := rowFn[lk]; rf != nil && len(rf.Blocks) > 0 {
+						for k := range opsReachable(rf.Blocks[0]) {
+							out[k] = true
+						}
+					}
+					continue
+				}
 				if isDynamicCall(ci.Common()) {
 					out["callback"] = true
 				}
@@ -372,6 +418,30 @@ func opsForConstant(fn *ssa.Function, typ, val string) (map[string]bool, int) {
 		}
 		if iff, ok := b.Instrs[len(b.Instrs)-1].(*ssa.If); ok && b.Parent() == fn {
 			cv, pol := condStrip(iff.Cond)
+			if lk, idx, ok := tableOf(cv); ok && idx == 1 {
+				// `action, known := table[ctl]; if known`
+				res := rowFn[lk] != nil
+				if !pol {
+					res = !res
+				}
+				if res {
+					walk(b.Succs[0])
+				} else {
+					walk(b.Succs[1])
+				}
+				return
+			}
+			if x, nonNilOnTrue, isNil := nilTest(iff.Cond); isNil {
+				// `if action := table[ctl]; action != nil`
+				if lk, idx, ok := tableOf(x); ok && idx <= 0 {
+					if (rowFn[lk] != nil) == nonNilOnTrue {
+						walk(b.Succs[0])
+					} else {
+						walk(b.Succs[1])
+					}
+					return
+				}
+			}
 			if bo, ok := cv.(*ssa.BinOp); ok && (bo.Op == token.EQL || bo.Op == token.NEQ) {
 				var k *ssa.Const
 				if kk, ok := bo.Y.(*ssa.Const); ok {
@@ -415,7 +485,7 @@ func checkStateTables(c *Ctx, p *Prog, S *stateRoles, rule string) {
 	sort.Strings(names)
 	for _, v := range names {
 		construct := "operation-table/" + ops[v]
-		got, decided := opsForConstant(S.appCh, "Operation", v)
+		got, decided := opsForConstant(p, S.appCh, "Operation", v)
 		if decided == 0 {
 			c.Unresolved(rule, construct, "the collection applier never compares the operation with a constant")
 			continue
@@ -432,7 +502,7 @@ func checkStateTables(c *Ctx, p *Prog, S *stateRoles, rule string) {
 		c.Check(got[w] && !got[other] && !got["Clear"], rule, construct, p.Pos(S.appCh.Pos()), v+" → Store."+w, fmt.Sprintf("operation %s does not map to exactly Store.%s (store operations reachable with that operation: %v)", v, w, keysOf(got)))
 	}
 	// an operation outside the table changes nothing
-	if got, _ := opsForConstant(S.appCh, "Operation", "\x00unknown"); true {
+	if got, _ := opsForConstant(p, S.appCh, "Operation", "\x00unknown"); true {
 		c.Check(!got["Set"] && !got["Delete"] && !got["Clear"], rule, "operation-table/unknown-operation", p.Pos(S.appCh.Pos()), "an unknown operation mutates nothing", fmt.Sprintf("an operation outside insert/update/delete mutates the store (%v)", keysOf(got)))
 	}
 	c.Floor(rule, "operation constants", len(ops), 3)
@@ -444,7 +514,7 @@ func checkStateTables(c *Ctx, p *Prog, S *stateRoles, rule string) {
 	sort.Strings(names)
 	for _, v := range names {
 		construct := "control-table/" + ctl[v]
-		got, decided := opsForConstant(S.applyControl, "Control", v)
+		got, decided := opsForConstant(p, S.applyControl, "Control", v)
 		if decided == 0 {
 			c.Unresolved(rule, construct, "the control applier never compares the control value with a constant")
 			continue
@@ -471,7 +541,13 @@ func checkResetClearsAll(c *Ctx, p *Prog, S *stateRoles, rule string) {
 	f := S.applyControl
 	var rng *ssa.Range
 	// the loop may sit in a helper of the package called from the control switch
-	for _, g := range reachFuncs(p, S.applyControl, PkgState) {
+	cands := reachFuncs(p, S.applyControl, PkgState)
+	// actions held by a constant dispatch table the control applier looks up
+	for _, tf := range tableFuncs(p, S.applyControl) {
+		cands = append(cands, tf)
+		cands = append(cands, reachFuncs(p, tf, PkgState)...)
+	}
+	for _, g := range cands {
 		for _, b := range g.Blocks {
 			for _, in := range b.Instrs {
 				if r, ok := in.(*ssa.Range); ok {
